@@ -1483,8 +1483,13 @@ func c16wGenF30(rng *rand.Rand) *C16WP {
 	m := c16wModels[2+rng.Intn(2)]
 	for {
 		p := c16wGenFirst(rng, m, "foc")
-		if rng.Intn(2) == 0 {
-			// key column not loaded
+		hasSelOm := false
+		for _, st := range p.Steps {
+			hasSelOm = hasSelOm || st.K == "select" || st.K == "omit"
+		}
+		if !hasSelOm && rng.Intn(2) == 0 {
+			// key column not loaded (never next to a Select / a second Omit: a query reads Selects and ignores Omits when both
+			// are present, the nested UPDATE reads both — that combination is not in the reference)
 			p.Steps = append(p.Steps, C16WS{K: "omit", Cols: []int{rng.Intn(m.nk())}})
 		}
 		e := p.refRun(nil)
@@ -1700,7 +1705,8 @@ func (p *C16WP) leanOp() []interface{} {
 	}
 	return []interface{}{"c16.wide", map[string]interface{}{
 		"nk": m.nk(), "auto": b2i(m.auto), "soft": b2i(m.soft),
-		"main": c16wRowsJ(c16wSorted(p.Rows)), "arch": c16wRowsJ(c16wSorted(p.Arch)),
+		// round 4: STORAGE (insertion) order — the model's lookup (UpsertScan.lookupK under the regenerated LookupCfg) decides
+		"main": c16wRowsJ(p.Rows), "arch": c16wRowsJ(p.Arch),
 		"table": b2i(s.arch), "unscoped": b2i(s.unscoped),
 		"conds": conds, "txconds": s.txconds,
 		"attrs": c16wPairsJ(s.attrs), "assigns": c16wPairsJ(s.assigns),
